@@ -83,13 +83,13 @@ type regScen struct {
 }
 
 var regScens = []regScen{
-	{Name: "one-plugin-two-creators", Plugins: []string{"good"}, Threads: [][]rop{{{"create", "c1"}}, {{"create", "c2"}}}, Bound: [2]int{3, 5}},
-	{Name: "two-plugins-one-creator", Plugins: []string{"good", "good"}, Threads: [][]rop{{{"create", "c1"}}}, Bound: [2]int{3, 5}},
-	{Name: "one-plugin-creator-and-events", Plugins: []string{"good"}, Threads: [][]rop{{{"create", "c1"}, {"create", "c2"}}, {{"event", "e1"}}}, Bound: [2]int{3, 5}},
-	{Name: "two-plugins-two-creators", Plugins: []string{"good", "good"}, Threads: [][]rop{{{"create", "c1"}}, {{"create", "c2"}}}, Bound: [2]int{2, 4}},
-	{Name: "failed-sync-then-good", Plugins: []string{"syncfail", "good"}, Threads: [][]rop{{{"create", "c1"}}}, Bound: [2]int{3, 5}},
-	{Name: "repeated-unblock-two-creators", Plugins: []string{"good"}, Threads: [][]rop{{{"create-unblock-twice", "c1"}}, {{"create", "c2"}}}, Bound: [2]int{3, 4}},
-	{Name: "bad-handshake-then-good", Plugins: []string{"badindex", "good"}, Threads: [][]rop{{{"create", "c1"}}}, Bound: [2]int{3, 5}},
+	{Name: "one-plugin-two-creators", Plugins: []string{"good"}, Threads: [][]rop{{{"create", "c1"}}, {{"create", "c2"}}}, Bound: [2]int{3, 6}},
+	{Name: "two-plugins-one-creator", Plugins: []string{"good", "good"}, Threads: [][]rop{{{"create", "c1"}}}, Bound: [2]int{3, 6}},
+	{Name: "one-plugin-creator-and-events", Plugins: []string{"good"}, Threads: [][]rop{{{"create", "c1"}, {"create", "c2"}}, {{"event", "e1"}}}, Bound: [2]int{3, 6}},
+	{Name: "two-plugins-two-creators", Plugins: []string{"good", "good"}, Threads: [][]rop{{{"create", "c1"}}, {{"create", "c2"}}}, Bound: [2]int{2, 5}},
+	{Name: "failed-sync-then-good", Plugins: []string{"syncfail", "good"}, Threads: [][]rop{{{"create", "c1"}}}, Bound: [2]int{3, 6}},
+	{Name: "repeated-unblock-two-creators", Plugins: []string{"good"}, Threads: [][]rop{{{"create-unblock-twice", "c1"}}, {{"create", "c2"}}}, Bound: [2]int{3, 5}},
+	{Name: "bad-handshake-then-good", Plugins: []string{"badindex", "good"}, Threads: [][]rop{{{"create", "c1"}}}, Bound: [2]int{3, 6}},
 }
 
 type regWorld struct {
